@@ -14,7 +14,7 @@ def add(pid, technique, design, text, note=NOTE):
     CHECKS[pid] = dict(technique=technique, design_ref=design, text=text, note=note)
 
 add("C01", T_PATH, "DESIGN.md §4 C01",
-    "Conservation ledger: on every CFG path of add_order, match_order (per loop iteration, match_against inlined) and update_order (all five arms) the affine sum of the fetch_add/fetch_sub operands on each aggregate equals the display/hidden/count contribution of the orders pushed minus those taken; constructors are zero+empty or derive the counters from the refreshed snapshot they queue; re-adding constructors only use new()+add_order. This decides the inductive step of the invariant for every order type and parameter value (a necessary and, with unique ids, sufficient condition); histories are not executed.")
+    "Conservation ledger: on every CFG path of add_order, match_order (per loop iteration, match_against inlined), update_order (all five arms) and every other function discovered (from the MIR, on each run) to write a level's counters or queue, the affine sum of the fetch_add/fetch_sub operands on each aggregate equals the display/hidden/count contribution of the orders pushed minus those taken; constructors are zero+empty or derive the counters from the refreshed snapshot they queue; re-adding constructors only use new()+add_order and hand every decoded order to it; no writer of a level's counters/queue lies outside the analysed set; the listing shows each map entry once. This decides the inductive step of the invariant for every order type and parameter value (a necessary and, with unique ids, sufficient condition); histories are not executed.")
 add("C02", T_PATH, "DESIGN.md §4 C02",
     "Loop invariant 'sum of transaction quantities + remaining = requested' as an affine identity on every iteration path of match_order; provenance of each Transaction::new argument (fresh id from the generator passed in, taker param, popped maker id, self.price, consumed, opposite side); transaction iff consumed>0; filled list iff traded and left; add_transaction agrees with a reference; ledger balance for the per-order lifetime bound. Static necessary conditions of the accounting statement; id uniqueness is C14's.")
 add("C03", T_EFF, "DESIGN.md §4 C03",
